@@ -949,3 +949,8 @@ twin("C05-T11", "C05", "direction tested with the downstream branch first", FW, 
 mutant("C20-M27", "C20", "R20l", "nested characteristics not expanded in a cascade stage", FW, "ProjectFramework.get_charac_includes", "                expanded += self.get_charac_includes(components)", "                pass")
 mutant("C20-M28", "C20", "R20l", "compartments dropped from the expansion", FW, "ProjectFramework.get_charac_includes", "                expanded.append(str(include))  # Use 'str()' to get `'sus'` in the error message instead of  `u'sus'`", "                pass")
 mutant("C20-M29", "C20", "R20l", "characteristic test inverted", FW, "ProjectFramework.get_charac_includes", "if include in self.characs.index:", "if include not in self.characs.index:")
+DA = "atomica/data.py"
+mutant("C16-M51", "C16", "R16ab", "transfers read from the second table on", DA, "ProjectData._read_transfers", "for i in range(0, len(tables), 3):", "for i in range(1, len(tables), 3):")
+mutant("C16-M52", "C16", "R16ab", "interaction built from two tables", DA, "ProjectData._read_interpops", "tables[i : i + 3]", "tables[i : i + 2]")
+mutant("C16-M53", "C16", "R16ab", "transfers read as interactions", DA, "ProjectData._read_transfers", 'tables[i : i + 3], "transfer")', 'tables[i : i + 3], "interaction")')
+mutant("C16-M54", "C16", "R16ab", "only the first interaction of each name is refused, the others are dropped", DA, "ProjectData._read_interpops", "            self.interpops.append(interaction)", "            if len(self.interpops) == 0:\n                self.interpops.append(interaction)")
